@@ -5,7 +5,7 @@ the property module), greps the Lean sources for forbidden constructs, and write
 harness turns into evidence (obligations / discharged are counted from this output)."""
 import json, os, re, subprocess, sys
 prop, build_ok, build_log, out = sys.argv[1], sys.argv[2] == 'true', sys.argv[3], sys.argv[4]
-root = '/verif/lean'
+root = os.environ.get('VERIF_ROOT', '/verif') + '/lean'
 ALLOWED = {'propext', 'Classical.choice', 'Quot.sound'}
 res = {'theorems': [], 'checker_cmd': 'lake build GLua.Props.%s && lake env lean .audit/Audit%s.lean (Lean.collectAxioms on every theorem of namespace GLua.Props.%s)' % (prop, prop, prop),
        'build_ok': build_ok, 'broken': [], 'generated_ok': True}
